@@ -73,6 +73,12 @@ func checkC07(c *Ctx) {
 	c.borrow("C03", func() { c.c03ExpiryErrorTypes() }, func(o *coreObl) (string, bool) { return "R07.2", o.Rule == "R03.3" })
 	// the expiry an entry reports (ExpireAt / ExpiredAt) is its E: tsTime is the exact inverse of ts (C10 R10.5)
 	c.borrow("C10", func() { c.c10TsInverse() }, func(o *coreObl) (string, bool) { return "R07.2", o.Rule == "R10.5" })
+	// never-expiring entries (E = 0) and recently expired ones survive the janitor: it deletes only E ≠ 0 ∧ E < boundary (C11 R11.2)
+	c.borrow("C11", func() {
+		for _, b := range backends {
+			c.c11DeleteExpired(b)
+		}
+	}, func(o *coreObl) (string, bool) { return "R07.4", o.Rule == "R11.2" })
 	// "expired but still retrievable as stale": an expired entry stays until it has been expired for DeleteExpiredAfter (C11 R11.1)
 	c.borrow("C11", func() { c.c11Boundary() }, func(o *coreObl) (string, bool) { return "R07.4", o.Rule == "R11.1" })
 	// the TTL option is installed by WithTTL (innermost wins, also DefaultTTL) and read back by TTL(ctx)
